@@ -36,6 +36,8 @@ def setup(length_stub=True, stub_lxml=True):
     chkit.install_packuri_stub()
     if stub_lxml:
         chkit.install_parse_hook()
+        if os.environ.get("VERIF_SLOW_PXML") != "1":
+            chkit.install_fast_pxml()
 
 
 def cond(expect="confirm", tiers=("quick", "thorough"), timeout=60, twin_of=None, note="",
